@@ -49,7 +49,7 @@ CLAIMS["C08"] = {
 CLAIMS["C09"] = {
     "technique": "rapid-generated Set/advance/callback histories on a virtual clock with fake timers (dispatched-but-not-run callbacks), invariant after every step",
     "engine": "vclock",
-    "text": "time.Until/time.AfterFunc of the working-tree deadline package are redirected (source-to-source, via -overlay) to a virtual clock whose fake timers follow the Stop/Reset contract; a due timer becomes 'dispatched' and its callback is run by the harness later, in any order, with several outstanding. After every step of up to 40-step histories: signalled only if the latest Set time is non-zero and passed; exact agreement when no callback is outstanding; fresh Done channel after expiry; Deadline() == latest Set. Exploration only.",
+    "text": "time.Until/time.AfterFunc of the working-tree deadline package are redirected (source-to-source, via -overlay) to a virtual clock whose fake timers follow the Stop/Reset contract; a due timer becomes 'dispatched' and its callback is run by the harness later, in any order, with several outstanding. After every step of up to 40-step histories: signalled only if the latest Set time is non-zero and passed; exact agreement when no callback is outstanding; fresh Done channel after expiry; Deadline() == latest Set. A controlled-schedule variant runs 1..3 setter tasks against clock and callback tasks at the granularity of every lock operation of deadline.go and checks the settle-state invariant. Exploration only.",
     "note": "Trusted: the fake timer's fidelity to time.AfterFunc semantics (Stop/Reset return false once the callback goroutine has been started). Real-timer behaviour is exercised by C10.",
     "design_ref": "DESIGN.md §2.4, §3 C09",
 }
@@ -65,7 +65,7 @@ CLAIMS["C18"] = {
 CLAIMS["C16"] = {
     "technique": "rapid-generated streams through the loss filter into a recording sink: equality / emptiness / subsequence oracle and a 6-sigma binomial bound",
     "engine": "rapid-models",
-    "text": "Generated-input search: chances {0,1,5,50,95,99,100,101,1000, negative} and uniform 0..100, streams of 0..2000 tagged chunks (40000 for the statistical cases) are pushed through NewLossFilter in front of a sink NIC; chance 0 must forward everything, chance >= 100 nothing, the output is always an in-order, duplicate-free, byte-identical subsequence with unchanged addresses, and on 40000 chunks the dropped count must lie within 6 sigma of N*p. Exploration plus a statistical test.",
+    "text": "Generated-input search: chances {0,1,5,50,95,99,100,101,1000, negative} and uniform 0..100, streams of 0..2000 tagged chunks (40000 for the statistical cases) are pushed through NewLossFilter in front of a sink NIC; chance 0 must forward everything, chance >= 100 nothing, the output is always an in-order, duplicate-free, byte-identical subsequence with unchanged addresses, and on 40000 chunks the dropped count must lie within 6 sigma of N*p. An end-to-end variant attaches NewLossFilter(host) to a router through the public API and checks the same on what the socket behind it receives. Exploration plus a statistical test.",
     "note": "Trusted: in-package sink shim (shims/vnet); the statistical assertion has a false-alarm probability below 2e-9 per case.",
     "design_ref": "DESIGN.md §3 C16",
 }
@@ -95,7 +95,7 @@ CLAIMS["C15"] = {
 CLAIMS["C14"] = {
     "technique": "rapid-generated arrival plans against DelayFilter (in-package sink, panic trap) and a MinDelay/MaxJitter router (public API); lower-bound timing, order, exactly-once and liveness oracle",
     "engine": "rapid-models",
-    "text": "Generated-input search on the real clock: delays {0,1us,50us,1ms,5ms,20ms}, 1..4 concurrent senders with bursts and gaps around the delay value through DelayFilter.Run (started by the harness with a recover trap), and MinDelay {0,1ms,10ms} x MaxJitter {0,2ms} routers with 1..3 sending sockets end to end. Oracle: forwarded no sooner than the delay after hand-in (monotonic stamps; noise can only make it more true), each chunk exactly once, unmodified, per-sender order, the loop never panics, everything forwarded within delay + 3 s. Exploration of the schedules the runtime produces; the yield-instrumented variant is listed in DESIGN.md as not yet built.",
+    "text": "Generated-input search on the real clock: delays {0,1us,50us,1ms,5ms,20ms}, 1..4 concurrent senders with bursts and gaps around the delay value through DelayFilter.Run (started by the harness with a recover trap), and MinDelay {0,1ms,10ms} x MaxJitter {0,2ms} routers with 1..3 sending sockets end to end. Oracle: forwarded no sooner than the delay after hand-in (monotonic stamps; noise can only make it more true), each chunk exactly once, unmodified, per-sender order, the loop never panics, everything forwarded within delay + 3 s. A controlled-schedule variant runs Run and the senders as scheduler tasks over the yield-instrumented delay_filter.go/chunk_queue.go (arrival notification vs. timer branch) with the terminal-quiescence rule. Exploration only.",
     "note": "Real clock: a tree that is early by less than the timer resolution could be missed; a slow machine cannot cause an alarm (lower bound and a 3 s liveness margin backed by a goroutine dump).",
     "design_ref": "DESIGN.md §3 C14",
 }
